@@ -663,3 +663,140 @@ Definition run_secrets (c : scase) : pyval :=
                | _ => o_str "broken"
                end ]
   end.
+
+(* ---- two configurations of one schema; configuration OBJECTS moved from the first into the second ----
+   `b.sub = a.sub`, `b.items = [a.items[0], ...]`, `b.items[:] = ...`, `b.items[i] = a.items[j]`,
+   `b.items.append(...)` / `extend([...])`: _set_value / ListProxy._validate set `_parent` to the new owner.
+   In the tree model the moved sub-tree keeps everything it holds (its own key file included) and sits at a
+   new position, so what it inherits changes.  The source configuration still refers to the moved object
+   (aliasing is outside the model): the stream does not use the source after the first move. *)
+Inductive mroute :=
+| MSub (name : str)                 (* dst.<name> = x *)
+| MReplace (name : str)             (* dst.<name> = [x; ...]   /   dst.<name>[:] = ... *)
+| MSetItem (name : str) (i : nat)   (* dst.<name>[i] = x *)
+| MAppend (name : str).             (* dst.<name>.append(x) / .extend([x; ...]) / += [x; ...] *)
+
+Fixpoint nodes_at (t : snode) (ps : list pos) : option (list snode) :=
+  match ps with
+  | [] => Some []
+  | p :: r => match node_at t p, nodes_at t r with
+              | Some n, Some l => Some (n :: l)
+              | _, _ => None
+              end
+  end.
+
+Definition apply_move (r : mroute) (ns : list snode) (n : snode) : option snode :=
+  match n with
+  | SNode c o s ch =>
+      match r with
+      | MSub name =>
+          match ns, assoc str_eqb name ch with
+          | [x], Some (CSub _) => Some (SNode c o s (assoc_set str_eqb name (CSub x) ch))
+          | _, _ => None
+          end
+      | MReplace name =>
+          match assoc str_eqb name ch with
+          | Some (CList pr _) => Some (SNode c o s (assoc_set str_eqb name (CList pr ns) ch))
+          | _ => None
+          end
+      | MSetItem name i =>
+          match ns, assoc str_eqb name ch with
+          | [x], Some (CList pr items) =>
+              if (i <? length items)%nat
+              then Some (SNode c o s (assoc_set str_eqb name (CList pr (set_nth i x items)) ch))
+              else None
+          | _, _ => None
+          end
+      | MAppend name =>
+          match assoc str_eqb name ch with
+          | Some (CList pr items) => Some (SNode c o s (assoc_set str_eqb name (CList pr (items ++ ns)) ch))
+          | _ => None
+          end
+      end
+  end.
+
+Fixpoint upd_at_o (f : snode -> option snode) (n : snode) (p : pos) : option snode :=
+  match p with
+  | [] => f n
+  | e :: r =>
+      match n with
+      | SNode c o secs ch =>
+          match e with
+          | StSub name =>
+              match assoc str_eqb name ch with
+              | Some (CSub x) =>
+                  match upd_at_o f x r with
+                  | Some x' => Some (SNode c o secs (assoc_set str_eqb name (CSub x') ch))
+                  | None => None
+                  end
+              | _ => None
+              end
+          | StItem name i =>
+              match assoc str_eqb name ch with
+              | Some (CList pr items) =>
+                  match nth_error items i with
+                  | Some x =>
+                      match upd_at_o f x r with
+                      | Some x' => Some (SNode c o secs (assoc_set str_eqb name (CList pr (set_nth i x' items)) ch))
+                      | None => None
+                      end
+                  | None => None
+                  end
+              | _ => None
+              end
+          end
+      end
+  end.
+
+Inductive sop2 :=
+| OnA (op : sop)
+| OnB (op : sop)
+| OMove (dst : pos) (r : mroute) (srcs : list pos).
+
+Section Run2.
+  Variable newkey : path -> bytes.
+  Definition st2 := (snode * snode * list (path * bytes))%type.
+  Definition sstep2 (st : st2) (op : sop2) : option st2 :=
+    let '(a, b, fs) := st in
+    match op with
+    | OnA o => option_map (fun r => (fst r, b, snd r)) (sstep newkey (a, fs) o)
+    | OnB o => option_map (fun r => (a, fst r, snd r)) (sstep newkey (b, fs) o)
+    | OMove dst r srcs =>
+        match nodes_at a srcs with
+        | Some ns => option_map (fun b' => (a, b', fs)) (upd_at_o (apply_move r ns) b dst)
+        | None => None
+        end
+    end.
+  Fixpoint srun2 (st : st2) (ops : list sop2) : option st2 :=
+    match ops with
+    | [] => Some st
+    | op :: r => match sstep2 st op with Some st' => srun2 st' r | None => None end
+    end.
+End Run2.
+
+(* as scase; both configurations start as the schema builds them; the observation is of the second *)
+Definition scase2 := (bool * list path * snode * list sop2 * option path)%type.
+
+Definition observe_secrets (aes : bool) (t : snode) (fs : list (path * bytes)) (root2 : option path) : pyval :=
+  let r := render aes toy_enc toy_b64 toy_key fs kf_default t in
+  let fs1 := fs_after toy_key fs (snd r) in
+  let tg := set_own root2 (fresh t) in
+  PTuple [ PList 0 (map (fun p => PInt (Z.of_N p)) (sel_kfs (fun _ => true) kf_default t));
+           o_effects (effects toy_key fs (snd r));
+           PBool (known_F34 t);
+           doc_shape (fst r);
+           match load_tree aes toy_dec toy_unb64 toy_key fs1 tg (fst r) with
+           | Ok (t', ops') =>
+               if rtree_eqb (plain t') (plain t)
+               then PTuple [o_str "same"; o_effects (effects toy_key fs1 ops')]
+               else o_str "broken"
+           | _ => o_str "broken"
+           end ].
+
+Definition run_secrets2 (c : scase2) : pyval :=
+  let '(aes, existing, t0, ops, root2) := c in
+  let fs0 := map (fun p => (p, toy_key p)) existing in
+  match srun2 toy_key (t0, t0, fs0) ops with
+  | None => o_str "unmodelled"
+  | Some (_, t, fs) => observe_secrets aes t fs root2
+  end.
